@@ -4,6 +4,7 @@
 XArgs / XReplace models: which mode is in force (normalize), the batches, and the rewritten argv."""
 from lib import framework as fw
 from props import xargs_common as xc
+from props import known_common as kc
 
 RULE = ("(option order over -I R / --replace[=R] / -i / -n k / -L k, initial arguments with 0..3 occurrences of R, input lines with blanks "
         "and R itself, empty lines, empty input) cases; non-trivial = distinct case with a replace option and at least one input line")
@@ -187,6 +188,14 @@ def run(ctx):
                           lines=[], final_nl=False, cmd=[b"cmd", b"x{}y", b"_"]))
     bad = evaluate(ctx, cases)
     no_command(ctx)
+    import tempfile, shutil, os
+    os.makedirs(os.path.join(fw.BUILD, "tmp"), exist_ok=True)
+    kd = tempfile.mkdtemp(prefix="c20-", dir=os.path.join(fw.BUILD, "tmp"))
+    try:
+        kc.argv_not_utf8_xargs(ctx, "C20", kd)
+        kc.i_equals(ctx, "C20", kd)
+    finally:
+        shutil.rmtree(kd, ignore_errors=True)
     for c in cases[:5]:
         ctx.sample({"options": c["opts"], "command": [x.decode("utf-8", "replace") for x in c["cmd"]], "input": input_of(c).decode("utf-8", "replace")})
     report(ctx, bad)
